@@ -13,7 +13,7 @@ def fmtSym (name : String) : String :=
   | "join" => "⋈" | "ljoin" => "⟕" | "rjoin" => "⟖" | "fjoin" => "⟗" | "semi" => "⋉" | "anti" => "▷"
   | "union" => "∪" | "inter" => "∩" | "diff" => "∖" | "symdiff" => "Δ" | "subset" => "⊆" | "superset" => "⊇"
   | "psubset" => "⊊" | "psuperset" => "⊋" | "elem" => "∈" | "notelem" => "∉"
-  | "matmul" => "**" | "dot" => "·" | "cross" => "⨯" | "solve" => "\\" | _ => "?"
+  | "matmul" => "**" | "dot" => "·" | "cross" => "⨯" | "solve" => "\\" | "seq" => "=:=" | "sne" => "=!=" | _ => "?"
 
 open Formula in
 mutual
